@@ -1,22 +1,42 @@
-(* C12 RobotWarehouse (PARTIAL): the observation's action_mask is the mask of the successor state and step_count its counter
-   (proved).  The sensor vectors: the code's writer (padded window, dynamic_update_slice, skip of the agent's own cell) is
-   modelled exactly ([agent_obs], correspondence-checked on every step incl. terminal collision states) and the documented view
-   ([view_spec]: own x, y, carrying, one-hot direction, highway flag; then per sensor cell other than the own one "agent there?
-   + its one-hot direction" read off the agent TABLE; then per sensor cell "shelf there? + requested?" read off the shelf
-   TABLE, row-major) is an independent executable statement; their equality [agent_obs = view_spec] is evaluated by the
-   harness on every visited consistent state and below, but NOT proved for all states. *)
-Require Import JV.Base.Prelude JV.Base.JaxIndex JV.Base.Codec JV.Base.TimeStep JV.Model.RobotWarehouse JV.Proofs.RobotWarehouse_lib JV.Proofs.RobotWarehouse JV.Proofs.RobotWarehouse_Step JV.Proofs.RobotWarehouse_Check.
-Theorem C12_RobotWarehouse_copied_fields_partial c s acts draws :
+(* C12 RobotWarehouse: observations are faithful views of the state.  The observation's action_mask is the mask of the
+   successor state and step_count its counter.  The sensor vectors: the code's writer (jnp.pad + dynamic_slice window,
+   dynamic_update_slice at a running index over a zero vector, index skips for empty cells, nothing for the agent's own
+   cell) is modelled exactly ([agent_obs], correspondence-checked on every step incl. terminal collision states); the
+   documented view ([view_spec]: own x, y, carrying, one-hot direction, highway flag; then per sensor cell other than the own
+   one "agent there? + its one-hot direction" read off the agent TABLE; then per sensor cell "shelf there? + requested?"
+   read off the shelf TABLE, row-major over the (2r+1)^2 window, cells outside the grid empty) is an independent
+   statement.  Proved: [agent_obs = view_spec] for EVERY consistent state (Inv), every agent and every sensor range r >= 0
+   and every grid size; hence also for the successor of every collision-free step with valid re-request draws. *)
+Require Import JV.Base.Prelude JV.Base.JaxIndex JV.Base.Codec JV.Base.TimeStep JV.Model.RobotWarehouse JV.Proofs.RobotWarehouse_lib JV.Proofs.RobotWarehouse JV.Proofs.RobotWarehouse_Step JV.Proofs.RobotWarehouse_Check JV.Proofs.RobotWarehouse_Obs JV.Proofs.RobotWarehouse_Queue.
+Theorem C12_RobotWarehouse_copied_fields c s acts draws :
   let s' := fst (step c s acts draws) in
   amask s' = compute_mask (gh c) (gw c) (gsh s') (agents s') /\ cnt s' = cnt s + 1.
 Proof. exact (conj (step_mask c s acts draws) (step_cnt c s acts draws)). Qed.
-Print Assumptions C12_RobotWarehouse_copied_fields_partial.
+Theorem C12_RobotWarehouse_agent_view c s i :
+  Inv c s -> 0 <= srange c -> 0 <= i < nag c -> agent_obs c s i = view_spec c s i.
+Proof. exact (agent_obs_view c s i). Qed.
+Theorem C12_RobotWarehouse_view c s :
+  Inv c s -> 0 <= srange c -> observe c s = map (view_spec c s) (zrange (nag c)).
+Proof. exact (observe_view c s). Qed.
+Theorem C12_RobotWarehouse_step_view c s acts draws :
+  Inv c s -> 0 <= srange c -> zlen acts = nag c -> collided c s acts = false ->
+  draws_ok (zlen (shelves s)) (w_gs (moved c s acts)) (queue s, w_sh (moved c s acts), 0) (goals c) draws = true ->
+  let s' := fst (step c s acts draws) in observe c s' = map (view_spec c s') (zrange (nag c)).
+Proof. exact (fun I Hr L Hc Hd => observe_view c _ (step_preserves_Inv c s acts draws I L Hc Hd) Hr). Qed.
+Print Assumptions C12_RobotWarehouse_copied_fields.
+Print Assumptions C12_RobotWarehouse_agent_view.
+Print Assumptions C12_RobotWarehouse_view.
+Print Assumptions C12_RobotWarehouse_step_view.
 Example C12_RobotWarehouse_nonvacuous :
-  observe ex_c ex_s1 = map (view_spec ex_c ex_s1) (zrange 2)
+  Inv_b ex_c ex_s1 = true /\ observe ex_c ex_s1 = map (view_spec ex_c ex_s1) (zrange 2)
   (* agent 0 at (1,1) carrying, facing RIGHT, off the highway; sees agent 1 (facing DOWN) above it, the requested shelf 1 under
      itself and shelf 2 to its right *)
   /\ agent_obs ex_c ex_s1 0 =
      [1; 1; 1;  0; 1; 0; 0;  0;
       0;0;0;0;0;  1;0;0;1;0;  0;0;0;0;0;   0;0;0;0;0;  0;0;0;0;0;   0;0;0;0;0;  0;0;0;0;0;  0;0;0;0;0;
-      0;0; 0;0; 0;0;   0;0; 1;1; 1;0;   0;0; 0;0; 0;0].
-Proof. vm_compute. split; reflexivity. Qed.
+      0;0; 0;0; 0;0;   0;0; 1;1; 1;0;   0;0; 0;0; 0;0]
+  (* on an INconsistent state (the terminal state of a collision: agent 0's mark is lost) the two differ, so Inv matters *)
+  /\ Inv_b ex_c (fst (step ex_c ex_s1 [NOOP; FORWARD] [0; 0])) = false
+  /\ list_eqb (list_eqb Z.eqb) (observe ex_c (fst (step ex_c ex_s1 [NOOP; FORWARD] [0; 0])))
+              (map (view_spec ex_c (fst (step ex_c ex_s1 [NOOP; FORWARD] [0; 0]))) (zrange 2)) = false.
+Proof. vm_compute. repeat split; reflexivity. Qed.
